@@ -279,7 +279,9 @@ def run_check(pid, tier, seed, t0):
         "explanation": getattr(prop, "EXPLANATION", ""),
     }
     ev = {
-        "property_id": pid, "tier": tier, "seed": seed, "level": "proof", "coverage": cov,
+        # a run in which no obligation could be discharged (the proof modules no longer build) is evidence of the
+        # exploration it did, not of a proof
+        "property_id": pid, "tier": tier, "seed": seed, "level": "proof" if discharged else "exploration", "coverage": cov,
         "assumptions": list(getattr(prop, "ASSUMPTIONS", [])),
         "wall_s": round(time.time() - t0, 2), "violations": len(new_violations) + (1 if (broken and not new_violations) else 0),
     }
